@@ -387,7 +387,7 @@ func main() {
 	cases := map[string]*Case{}
 	var order []string
 	var stats []tlcStats
-	nops := 21 // size of the alphabet; checked against the Meta record below
+	nops := 23 // size of the alphabet; checked against the Meta record below
 	samples := []smp{{env.Pick(250, 1000), 2, 2}, {env.Pick(40, 200), 3, 2}, {env.Pick(60, 400), 2, 3}, {env.Pick(0, 20), 3, 3}}
 	mcs := map[string]string{"MCS.tla": sampleModule(rng, samples, nops)}
 	stats = append(stats, runIdeal(env, rep, cases, &order, map[bool]string{false: "ideal.cfg", true: "ideal_thorough.cfg"}[env.Thorough()], mcs, "MCS"))
@@ -572,8 +572,8 @@ func soloInFreshProcess(env *common.Env, c *Case) bool {
 	cmd := exec.Command(os.Args[0])
 	cmd.Dir = env.Scratch
 	cmd.Env = append(os.Environ(), "GPV_C08_SOLO="+jf)
-	out, err := cmd.Output()
-	return err == nil && strings.TrimSpace(string(out)) == "match"
+	// the verdict is the exit status (0 = behaves as specified); whatever the child prints is not protocol
+	return cmd.Run() == nil
 }
 
 // ---- race stage -------------------------------------------------------------------------
@@ -604,6 +604,7 @@ type stressResult struct {
 	SharedDiff []string         `json:"shared_diff"`
 	Mismatches []stressMismatch `json:"mismatches"`
 	Panics     []string         `json:"panics"`
+	Stdout     string           `json:"-"` // what the worker wrote to its stdout: text that escaped every context's writer
 }
 
 func corpus(env *common.Env, rng *rand.Rand, n int) []string {
@@ -634,7 +635,9 @@ func runStress(env *common.Env, name string, job *stressJob, timeout time.Durati
 	os.WriteFile(jf, b, 0o644)
 	cmd := exec.Command(os.Args[0])
 	cmd.Dir = env.Scratch
-	cmd.Env = append(os.Environ(), "GPV_C08_STRESS="+jf,
+	rf := filepath.Join(env.Scratch, "stress-"+name+".result.json")
+	os.Remove(rf)
+	cmd.Env = append(os.Environ(), "GPV_C08_STRESS="+jf, "GPV_C08_RESULT="+rf,
 		"GORACE=halt_on_error=0 exitcode=0 log_path="+filepath.Join(env.Scratch, "race-"+name))
 	var so, se strings.Builder
 	cmd.Stdout, cmd.Stderr = &so, &se
@@ -644,10 +647,17 @@ func runStress(env *common.Env, name string, job *stressJob, timeout time.Durati
 	t := time.AfterFunc(timeout, func() { cmd.Process.Kill() })
 	err := cmd.Wait()
 	t.Stop()
+	// the result comes in a file the parent named; stdout and stderr of the worker are data (text that leaked out
+	// of a context, runtime messages), never protocol
 	var res stressResult
-	if jerr := json.Unmarshal([]byte(so.String()), &res); jerr != nil && err == nil {
-		err = fmt.Errorf("bad result from stress worker: %v", jerr)
+	rb, rerr := os.ReadFile(rf)
+	if rerr == nil {
+		rerr = json.Unmarshal(rb, &res)
 	}
+	if rerr != nil && err == nil {
+		err = fmt.Errorf("no result from stress worker: %v", rerr)
+	}
+	res.Stdout = common.TrimKey(so.String(), 400)
 	return &res, se.String(), err
 }
 
@@ -729,6 +739,12 @@ func raceStage(env *common.Env, rep *common.Report, rng *rand.Rand, cases map[st
 		}
 		for _, p := range res.Panics {
 			rep.Violation("C08|free run|panic|"+common.TrimKey(p, 80), p)
+		}
+		if res.Stdout != "" {
+			// every context of the workload has its own captured sys.stdout: text on the process's stdout was
+			// printed through another context's sys module
+			c := meta["Print"]
+			rep.Violation("C08|"+c.Writer+"|"+c.Name+" shared", map[string]interface{}{"free_running": true, "text_on_process_stdout": res.Stdout})
 		}
 	}
 	raceInfo["clean_race_reports"] = len(reports)
